@@ -160,7 +160,9 @@ def stepLine (s : St) (j : Json) : St × Json :=
     let r := Replica.start s.durable
     ({ s with r := r }, Json.mkObj [("class", "restarted"), ("snap", snapJ s.cfg.c r)])
   | some "propose" =>
-    match s.notified with
+    -- the justification handed to the proposer is given by the op (abstract value rebuilt by the harness from
+    -- the real notification); `create_proposal` is compared as a function of it
+    match (getObj j "just").bind just? with
     | none => (s, Json.mkObj [("class", "nothing")])
     | some jj =>
       let fresh : Payload := { id := (getNat j "fresh").getD 0, size := 8 }
